@@ -114,6 +114,11 @@ class P:
             return "W64"
         if v == "Self":
             return "Self"
+        if v == "Option":
+            self.eat("<")
+            t = self.ty()
+            self.eat(">")
+            return ("option", t)
         if v in ("u64", "u128", "usize", "bool", "u16", "u32", "u8"):
             return v
         raise Unsupported("type " + v)
@@ -129,9 +134,12 @@ class P:
         self.eat("(")
         params = []
         while not self.at(")"):
-            if self.at("self") or self.at("mut") and self.peek(1)[1] == "self":
-                self.accept("mut")
-                self.next()
+            k0 = 0
+            while self.peek(k0)[1] in ("&", "mut"):
+                k0 += 1
+            if self.peek(k0)[1] == "self":
+                for _ in range(k0 + 1):
+                    self.next()
                 params.append(("self", "Self"))
             else:
                 self.accept("mut")
@@ -208,12 +216,36 @@ class P:
                 else:
                     tail = e
                 break
-            if e[0] == "if":          # if-statement without trailing semicolon
+            if e[0] in ("if", "while", "match"):   # block-like statement without trailing semicolon
                 stmts.append(("expr", e))
                 continue
             raise Unsupported("statement near %r" % (self.peek()[1],))
         self.eat("}")
         return ("block", stmts, tail)
+
+    def mpat(self):
+        """match-arm pattern: tuple / identifier / `_` / bool or integer literal / Some(p) / None."""
+        if self.accept("("):
+            ps = []
+            while not self.at(")"):
+                ps.append(self.mpat())
+                if not self.accept(","):
+                    break
+            self.eat(")")
+            return ("ptuple", ps)
+        k, v = self.next()
+        if k == "num":
+            return ("plit", str(parse_num(v)[0]))
+        if v in ("true", "false", "None"):
+            return ("plit", v)
+        if v == "_":
+            return ("pwild",)
+        if v == "Some":
+            self.eat("(")
+            q = self.mpat()
+            self.eat(")")
+            return ("psome", q)
+        return ("pvar", v, False)
 
     def pat(self):
         if self.accept("("):
@@ -324,6 +356,23 @@ class P:
             if self.accept("else"):
                 el = self.block() if self.at("{") else ("block", [], self.primary())
             return ("if", c, th, el)
+        if v == "match":
+            self.next()
+            scrut = self.expr()
+            self.eat("{")
+            arms = []
+            while not self.at("}"):
+                pat = self.mpat()
+                self.eat("=>")
+                body = self.block() if self.at("{") else ("block", [], self.expr())
+                arms.append((pat, body))
+                self.accept(",")
+            self.eat("}")
+            return ("match", scrut, arms)
+        if v == "while":
+            self.next()
+            c = self.expr()
+            return ("while", c, self.block())
         if v == "unsafe":
             self.next()
             return self.block()
@@ -371,6 +420,7 @@ def paren(s):
 
 class Tr:
     def __init__(self):
+        self.uconsts = {}   # associated consts of Uint: name -> (type, initialiser AST), inlined at use
         self.sigs = {}      # rust name -> (gname, [param tys], ret ty, pure, mutref_idx)
         self.alias = {}
         self.out = []
@@ -388,6 +438,10 @@ class Tr:
             return [], str(e[1]), t
         if k == "var":
             nm = e[1]
+            if nm in ("true", "false"):
+                return [], nm, "bool"
+            if nm == "None":
+                return [], "None", want if (want and want[0] == "option") else ("option", None)
             if nm in env:
                 return [], env[nm][0], env[nm][1]
             raise Unsupported("unbound " + nm)
@@ -397,6 +451,19 @@ class Tr:
                 return [], "(B - 1)", "u64"
             if p == "u128::MAX":
                 return [], "(BB - 1)", "u128"
+            if e[1][0] == "Self" and len(e[1]) == 2 and f.selfty == "uint":
+                c = e[1][1]
+                if c == "ZERO":
+                    return [], "(uZERO BITS)", "uint"
+                if c == "MAX":
+                    return [], "(uMAX BITS)", "uint"
+                if c in ("BITS", "LIMBS"):
+                    # Self::LIMBS additionally asserts LIMBS == nlimbs(BITS) at compile time; the
+                    # translated functions are only stated for well-formed (BITS, LIMBS)
+                    return [], c, "usize"
+                if c in self.uconsts:
+                    cty, cast = self.uconsts[c]
+                    return self.ex(f, cast, env, cty)
             raise Unsupported("path " + p)
         if k == "tuple":
             bs, atoms, ts = [], [], []
@@ -440,6 +507,10 @@ class Tr:
             b, a, t = self.ex(f, e[1], env)
             if e[2] == "0" and t == "W64":
                 return b, a, "u64"
+            if e[2] == "limbs" and t == "uint":
+                return b, a, ("slice", "u64")
+            if e[2] in ("0", "1") and isinstance(t, tuple) and t[0] == "tuple" and len(t[1]) == 2:
+                return b, "(%s %s)" % ("fst" if e[2] == "0" else "snd", paren(a)), t[1][int(e[2])]
             raise Unsupported("field ." + e[2])
         if k == "index":
             b, a, t = self.ex(f, e[1], env)
@@ -453,6 +524,8 @@ class Tr:
             raise Unsupported("macro in expression: " + e[1])
         if k == "if":
             return self.if_expr(f, e, env, want)
+        if k == "match":
+            return self.match_expr(f, e, env, want)
         if k == "call":
             return self.call(f, e, env, want)
         if k == "mcall":
@@ -471,8 +544,13 @@ class Tr:
         if op in ("&&", "||"):
             b1, a1, _ = self.ex(f, x, env, "bool")
             b2, a2, _ = self.ex(f, y, env, "bool")
-            if b2:
-                raise Unsupported("checked arithmetic on the right of " + op)
+            if b2:      # short circuit: the right operand (and its checks) only runs when needed
+                f.impure = True
+                v = f.fresh()
+                rhs = "(%s Val %s)" % (" ".join(b2), a2)
+                if op == "&&":
+                    return b1 + ["do %s <- (if %s then %s else Val false) ;" % (v, a1, rhs)], v, "bool"
+                return b1 + ["do %s <- (if %s then Val true else %s) ;" % (v, a1, rhs)], v, "bool"
             return b1, "(%s %s %s)" % (paren(a1), op, paren(a2)), "bool"
         if op in ("<<", ">>"):
             b1, a1, t1 = self.ex(f, x, env, want)
@@ -567,6 +645,33 @@ class Tr:
         v = f.fresh()
         return bc + ["do %s <- (if %s then %s else %s) ;" % (v, ac, s1, s2)], v, t1
 
+    def mpat(self, p, ty, env):
+        if p[0] == "pvar":
+            env[p[1]] = (p[1], ty)
+            return p[1]
+        if p[0] == "pwild":
+            return "_"
+        if p[0] == "plit":
+            return p[1]
+        if p[0] == "psome":
+            return "(Some %s)" % self.mpat(p[1], ty[1] if ty and ty[0] == "option" else None, env)
+        if ty[0] != "tuple" or len(ty[1]) != len(p[1]):
+            raise Unsupported("match pattern vs type")
+        return "(" + ", ".join(self.mpat(q, t, env) for q, t in zip(p[1], ty[1])) + ")"
+
+    def match_expr(self, f, e, env, want):
+        bs, a, t = self.ex(f, e[1], env)
+        arms, rty = [], None
+        for pat, body in e[2]:
+            env2 = dict(env)
+            ps = self.mpat(pat, t, env2)
+            code, bt = self.block_val(f, body, env2, want or rty)
+            rty = rty or bt
+            arms.append("| %s => %s" % (ps, code))
+        f.impure = True
+        v = f.fresh()
+        return bs + ["do %s <- (match %s with %s end) ;" % (v, a, " ".join(arms))], v, rty
+
     def block_val(self, f, blk, env, want):
         """A block used as a value: emitted as an outcome expression `binds; Val atom`."""
         res = {}
@@ -585,6 +690,9 @@ class Tr:
         name = fe[1] if fe[0] == "var" else "::".join(fe[1])
         if name in ("unlikely", "likely"):
             return self.ex(f, args[0], env, want)
+        if name == "Some":
+            b, a, t = self.ex(f, args[0], env, want[1] if (want and want[0] == "option") else None)
+            return b, "(Some %s)" % paren(a), ("option", t)
         if name == "Wrapping":
             b, a, t = self.ex(f, args[0], env, "u64")
             return b, a, "W64"
@@ -606,11 +714,13 @@ class Tr:
         return self.apply(f, name, args, env)
 
     def apply(self, f, name, args, env, recv=None):
-        gname, ptys, rty, pure, mutidx = self.sigs[name]
-        bs, atoms = [], []
+        gname, ptys, rty, pure, mutidx, uintm = self.sigs[name]
+        bs, atoms = [], (["BITS", "LIMBS"] if uintm else [])
         allargs = ([recv] if recv is not None else []) + list(args)
         if len(allargs) != len(ptys):
             raise Unsupported("arity of " + name)
+        if uintm and "BITS" not in env:
+            raise Unsupported("Uint method called outside a Uint impl")
         for a, pt in zip(allargs, ptys):
             if isinstance(a, tuple) and a and a[0] == "__atom":
                 atoms.append(a[1])
@@ -658,6 +768,11 @@ class Tr:
             v = f.fresh()
             return b + ["do %s <- tbl %s %s ;" % (v, env[recv[1]][0], paren(a))], v, env[recv[1]][1][1]
         br, ar, tr_ = self.ex(f, recv, env, want if m.startswith("wrapping_") else None)
+        if tr_ == "uint":
+            if "U." + m not in self.sigs:
+                raise Unsupported("Uint method ." + m)
+            b2, a2, t2 = self.apply(f, "U." + m, args, env, recv=("__atom", paren(ar)))
+            return br + b2, a2, t2
         if m == "len" and isinstance(tr_, tuple) and tr_[0] == "slice":
             return br, "(lenZ %s)" % paren(ar), "usize"
         if m in ("wrapping_add", "wrapping_sub", "wrapping_mul"):
@@ -697,6 +812,8 @@ class Tr:
                     out.append(e[1])
             elif e[0] == "un" and e[1] == "*":
                 lhs(e[2])
+            elif e[0] in ("index", "field"):
+                lhs(e[1])
             elif e[0] == "tuple":
                 for x in e[1]:
                     lhs(x)
@@ -713,6 +830,8 @@ class Tr:
                     walk(s[1][2])
                     if s[1][3]:
                         walk(s[1][3])
+                elif s[0] == "expr" and s[1][0] == "while":
+                    walk(s[1][2])
         walk(blk)
         return out
 
@@ -770,16 +889,31 @@ class Tr:
                 rhs = ("bin", s[2], tgt, s[3])
             else:
                 rhs = s[3]
-            if tgt[0] == "var":
-                ty = env[tgt[1]][1]
+            def target(t):
+                """(name bound by the let, type, code after the let)"""
+                if t[0] == "var":
+                    return t[1], env[t[1]][1], []
+                if t[0] == "index":
+                    root = t[1]
+                    while root[0] == "field":
+                        root = root[1]
+                    if root[0] != "var":
+                        raise Unsupported("assignment target")
+                    bi, ai, _ = self.ex(f, t[2], env, "usize")
+                    nv = f.fresh()
+                    return nv, "u64", bi + ["let %s := upd %s %s %s in" % (root[1], env[root[1]][0], paren(ai), nv)]
+                raise Unsupported("assignment target")
+            if tgt[0] in ("var", "index"):
+                nm, ty, post = target(tgt)
                 b, a, t = self.ex(f, rhs, env, ty)
-                env = dict(env)
-                env[tgt[1]] = (tgt[1], ty)
-                return "%s let %s := %s in\n  %s" % (" ".join(b), tgt[1], a, rest(env))
+                return "%s let %s := %s in %s\n  %s" % (" ".join(b), nm, a, " ".join(post), rest(env))
             if tgt[0] == "tuple":
-                tys = ("tuple", [env[x[1]][1] for x in tgt[1]])
+                parts = [target(x) for x in tgt[1]]
+                tys = ("tuple", [x[1] for x in parts])
                 b, a, t = self.ex(f, rhs, env, tys)
-                return "%s let '(%s) := %s in\n  %s" % (" ".join(b), ", ".join(x[1] for x in tgt[1]), a, rest(env))
+                post = [c for x in parts for c in x[2]]
+                return "%s let '(%s) := %s in %s\n  %s" % (" ".join(b), ", ".join(x[0] for x in parts), a,
+                                                         " ".join(post), rest(env))
             raise Unsupported("assignment target")
         if k == "expr":
             e = s[1]
@@ -833,6 +967,36 @@ class Tr:
                     return "%s do %s <- (if %s then (%s) else (%s)) ;\n  %s" % (" ".join(bc), vs[0], ac, s1, s2, rest(env))
                 return "%s do %s <- (if %s then (%s) else (%s)) ;\n  let '%s := %s in\n  %s" % (
                     " ".join(bc), w, ac, s1, s2, tup, w, rest(env))
+            if e[0] == "while":
+                c, body = e[1], e[2]
+                ok = (c[0] == "bin" and c[1] == "<" and c[2][0] == "var" and body[2] is None and body[1]
+                      and body[1][-1][0] == "assign" and body[1][-1][1] == c[2] and body[1][-1][2] == "+"
+                      and body[1][-1][3][0] == "num" and body[1][-1][3][1] == 1)
+                if not ok:
+                    raise Unsupported("while loop that is not `while i < E { ...; i += 1; }`")
+                iv = c[2][1]
+                inner = ("block", body[1][:-1], None)
+                vs = [v for v in self.assigned(inner) if v != iv]
+                if iv in self.assigned(inner):
+                    raise Unsupported("loop counter assigned in the body")
+                bh, ah, _ = self.ex(f, c[3], env, "usize")
+                lo = env[iv][0]
+                tup = lambda en: ("(" + ", ".join(en[v][0] for v in vs) + ")") if len(vs) != 1 else en[vs[0]][0]
+                pat = ("(" + ", ".join(vs) + ")") if len(vs) != 1 else vs[0]
+                env2 = dict(env)
+                env2[iv] = (iv, "usize")
+                for v in vs:
+                    env2[v] = (v, env[v][1])
+                bcode = self.stmts(f, inner[1], 0, env2, lambda en: "Val " + tup(en), retty)
+                f.impure = True
+                w, st = f.fresh(), f.fresh()
+                env = dict(env)
+                cur = tup(env)
+                for v in vs:
+                    env[v] = (v, env[v][1])
+                env[iv] = ("(Z.max %s %s)" % (paren(lo), paren(ah)), "usize")
+                return "%s do %s <- for_range %s %s %s (fun %s %s => let '%s := %s in %s) ;\n  let '%s := %s in\n  %s" % (
+                    " ".join(bh), w, paren(lo), paren(ah), cur, iv, st, pat, st, bcode, pat, w, rest(env))
             if e[0] in ("call", "mcall"):            # value discarded
                 b, a, t = self.ex(f, e, env)
                 return "%s\n  %s" % (" ".join(b), rest(env))
@@ -843,12 +1007,23 @@ class Tr:
     def function(self, rname, gname, src, selfty=None):
         name, params, ret, body = P(tokenize(src)).fn()
         f = Fn(self, gname, params, ret, selfty)
-        if ret == "Self":
-            ret = selfty
+
+        def subst(t):
+            if t == "Self":
+                return selfty
+            if isinstance(t, tuple) and t[0] in ("tuple",):
+                return ("tuple", [subst(x) for x in t[1]])
+            if isinstance(t, tuple) and t[0] in ("option", "mutref", "slice"):
+                return (t[0], subst(t[1]))
+            return t
+        ret = subst(ret)
         env, binders, ptys, mutouts = {}, [], [], []
+        if selfty == "uint":
+            env["BITS"] = ("BITS", "usize")
+            env["LIMBS"] = ("LIMBS", "usize")
+            binders += ["(BITS : Z)", "(LIMBS : Z)"]
         for pn, pt in params:
-            if pt == "Self":
-                pt = selfty
+            pt = subst(pt)
             if isinstance(pt, tuple) and pt[0] == "mutref":
                 env[pn] = (pn, pt[1])
                 mutouts.append(pn)
@@ -858,7 +1033,7 @@ class Tr:
                 env[pn] = (pn, pt)
                 ptys.append(pt)
             binders.append("(%s : %s)" % (pn, "bool" if pt == "bool" else
-                                          "list Z" if (isinstance(pt, tuple) and pt[0] == "slice") else "Z"))
+                                          "list Z" if (pt == "uint" or (isinstance(pt, tuple) and pt[0] == "slice")) else "Z"))
 
         def fin(env2):
             if body[2] is None:
@@ -877,7 +1052,8 @@ class Tr:
         for tn, vals in f.tables:
             self.out.append("Definition %s : list Z := [%s]." % (tn, "; ".join(map(str, vals))))
         self.out.append("(* %s *)\nDefinition %s %s :=\n  %s." % (rname, gname, " ".join(binders), code.strip()))
-        self.sigs[rname] = (gname, ptys, ret, pure, {i for i, (pn, _) in enumerate(params) if pn in mutouts})
+        self.sigs[rname] = (gname, ptys, ret, pure, {i for i, (pn, _) in enumerate(params) if pn in mutouts},
+                            selfty == "uint")
         return pure
 
 
@@ -909,6 +1085,7 @@ def fn_text(txt, name, after=None):
     return txt[m.start():j]
 
 
+UINT_IMPL = "impl<const BITS: usize, const LIMBS: usize> Uint<BITS, LIMBS>"
 # (file, marker, rust fn name, name used at call sites, generated name, Self type)
 TARGETS = [
     ("src/lib.rs", None, "nlimbs", "nlimbs", "g_nlimbs", None),
@@ -939,6 +1116,19 @@ TARGETS = [
     ("src/algorithms/div/reciprocal.rs", None, "reciprocal_2_mg10", "reciprocal_2_mg10", "g_reciprocal_2_mg10", None),
     ("src/algorithms/div/small.rs", None, "div_2x1_mg10", "div_2x1_mg10", "g_div_2x1_mg10", None),
     ("src/algorithms/div/small.rs", None, "div_3x2_mg10", "div_3x2_mg10", "g_div_3x2_mg10", None),
+    # inherent methods of Uint<BITS, LIMBS>: generated with leading (BITS LIMBS : Z) parameters
+    ("src/lib.rs", UINT_IMPL, "masked", "U.masked", "g_masked", "uint"),
+    ("src/add.rs", UINT_IMPL, "overflowing_add", "U.overflowing_add", "g_overflowing_add", "uint"),
+    ("src/add.rs", UINT_IMPL, "overflowing_sub", "U.overflowing_sub", "g_overflowing_sub", "uint"),
+    ("src/add.rs", UINT_IMPL, "overflowing_neg", "U.overflowing_neg", "g_overflowing_neg", "uint"),
+    ("src/add.rs", UINT_IMPL, "checked_add", "U.checked_add", "g_checked_add", "uint"),
+    ("src/add.rs", UINT_IMPL, "checked_sub", "U.checked_sub", "g_checked_sub", "uint"),
+    ("src/add.rs", UINT_IMPL, "checked_neg", "U.checked_neg", "g_checked_neg", "uint"),
+    ("src/add.rs", UINT_IMPL, "saturating_add", "U.saturating_add", "g_saturating_add", "uint"),
+    ("src/add.rs", UINT_IMPL, "saturating_sub", "U.saturating_sub", "g_saturating_sub", "uint"),
+    ("src/add.rs", UINT_IMPL, "wrapping_add", "U.wrapping_add", "g_wrapping_add", "uint"),
+    ("src/add.rs", UINT_IMPL, "wrapping_sub", "U.wrapping_sub", "g_wrapping_sub", "uint"),
+    ("src/add.rs", UINT_IMPL, "wrapping_neg", "U.wrapping_neg", "g_wrapping_neg", "uint"),
 ]
 
 
@@ -953,6 +1143,15 @@ def translate(repo):
             continue
         for m in re.finditer(r"(\w+)\s+as\s+(\w+)", " ".join(re.findall(r"pub use self::\{([^}]*)\}", txt))):
             tr.alias[m.group(2)] = m.group(1)
+    # associated consts of Uint that the translated methods mention (inlined at each use)
+    try:
+        lib = open(os.path.join(repo, "src/lib.rs")).read()
+        for cn in ("MASK", "SHOULD_MASK"):
+            m = re.search(r"\bconst\s+%s\s*:\s*(\w+)\s*=\s*([^;]+);" % cn, lib)
+            if m:
+                tr.uconsts[cn] = (m.group(1), P(tokenize(m.group(2))).expr())
+    except (OSError, Unsupported):
+        pass
     for rel, marker, fname, cname, gname, selfty in TARGETS:
         try:
             txt = open(os.path.join(repo, rel)).read()
